@@ -42,6 +42,9 @@ type MemConn struct {
 	Yield   int
 	OnWrite func(b []byte, addr net.Addr)
 	OnRead  func(tag int, n int)
+	// FailWrite, when set, is asked before every WriteTo; a non-nil error is returned to the caller
+	// and the datagram is not sent (a transient send error such as ENOBUFS).
+	FailWrite func(b []byte, addr net.Addr) error
 }
 
 func NewMemConn() *MemConn {
@@ -96,6 +99,11 @@ func (c *MemConn) WriteTo(p []byte, addr net.Addr) (int, error) {
 	c.mu.Unlock()
 	if closed {
 		return 0, net.ErrClosed
+	}
+	if c.FailWrite != nil {
+		if err := c.FailWrite(p, addr); err != nil {
+			return 0, err
+		}
 	}
 	cp := append([]byte(nil), p...)
 	if c.OnWrite != nil {
